@@ -1,4 +1,5 @@
 import ALock.Drv.Sem
+import ALock.Drv.Mutex
 
 /-!
 `alock-driver`: reads op lines on stdin, prints one observation line per input line.
@@ -12,6 +13,7 @@ open ALock
 inductive World where
   | empty
   | sem (s : Sem.Sys)
+  | mutex (s : Mutex.Sys)
 
 def World.create (toks : List String) : World × String :=
   match toks with
@@ -19,42 +21,64 @@ def World.create (toks : List String) : World × String :=
     match Drv.Sem.create rest with
     | some s => (.sem s, Drv.obs "ok" [] (Drv.Sem.snapshot s))
     | Option.none => (.empty, "bad-op")
+  | "mutex" :: rest =>
+    match Drv.Mutex.create rest with
+    | some s => (.mutex s, Drv.obs "ok" [] (Drv.Mutex.snapshot s))
+    | Option.none => (.empty, "bad-op")
   | _ => (.empty, "bad-op")
 
 def World.exec (w : World) (toks : List String) : World × String :=
   match w with
   | .empty => (w, "bad-op")
   | .sem s => let r := Drv.Sem.exec s toks; (.sem r.1, r.2)
+  | .mutex s => let r := Drv.Mutex.exec s toks; (.mutex r.1, r.2)
 
-partial def loop (h : IO.FS.Stream) (out : IO.FS.Stream) (w : World) (stack : List World) : IO Unit := do
+def World.label (w : World) (toks : List String) : Option String :=
+  match w with
+  | .mutex s => Drv.Mutex.label s toks
+  | _ => none
+
+def bump (cov : List (String × Nat)) (k : String) : List (String × Nat) :=
+  match cov with
+  | [] => [(k, 1)]
+  | (k', n) :: rest => if k' == k then (k', n + 1) :: rest else (k', n) :: bump rest k
+
+partial def loop (h : IO.FS.Stream) (out : IO.FS.Stream) (w : World) (stack : List World)
+    (cov : List (String × Nat)) : IO Unit := do
   let line ← h.getLine
-  if line.isEmpty then return ()
+  if line.isEmpty then
+    let err ← IO.getStderr
+    err.putStrLn ("COV " ++ " ".intercalate (cov.map fun (k, n) => s!"{k}={n}"))
+    return ()
   let l := line.trimAscii.toString
   -- accept `op || obs` lines: only the part before `||` is the op
   let l := ((l.splitOn " || ").headD "").trimAscii.toString
   if l.isEmpty then
-    loop h out w stack
+    loop h out w stack cov
   else if l == "(" then
     out.putStrLn "("
-    loop h out w (w :: stack)
+    loop h out w (w :: stack) cov
   else if l == ")" then
     out.putStrLn ")"
     match stack with
-    | w' :: rest => loop h out w' rest
-    | [] => loop h out w []
+    | w' :: rest => loop h out w' rest cov
+    | [] => loop h out w [] cov
   else
     let toks := (l.splitOn " ").filter (· ≠ "")
     match toks with
     | "new" :: rest =>
       let (w', o) := World.create rest
       out.putStrLn o
-      loop h out w' []
+      loop h out w' [] cov
     | _ =>
+      let cov := match w.label toks with
+        | some k => bump cov k
+        | none => cov
       let (w', o) := w.exec toks
       out.putStrLn o
-      loop h out w' stack
+      loop h out w' stack cov
 
 def main : IO Unit := do
   let stdin ← IO.getStdin
   let stdout ← IO.getStdout
-  loop stdin stdout .empty []
+  loop stdin stdout .empty [] []
